@@ -11,7 +11,7 @@ PROPS = ["C%02d" % i for i in range(1, 21)]
 def run(d, props):
     t = tempfile.mkdtemp(prefix="benign-")
     try:
-        subprocess.run(["cp", "-r", "/repo", t + "/repo"], check=True)
+        subprocess.run(["rsync", "-a", "--exclude", ".git", "/repo/", t + "/repo/"], check=True)
         shutil.rmtree(t + "/repo/.git", ignore_errors=True)
         p = subprocess.run(["patch", "-p1", "-s", "--no-backup-if-mismatch", "-i", os.path.join(d, "patch.diff")], cwd=t + "/repo", capture_output=True, text=True)
         if p.returncode != 0:
